@@ -5,6 +5,7 @@ import (
 	"fmt"
 	"io"
 	"net"
+	"os"
 	"runtime"
 	"strings"
 	"time"
@@ -70,25 +71,10 @@ func main() {
 	base0 := runtime.NumGoroutine()
 	fmt.Println("goroutines", base0, s.VerifLedger())
 
-	// slowloris probe: connect, send nothing / 3 bytes
-	for _, pre := range []string{"", "OPT", "GET ", "OPTIONS rtsp://x/ RTSP/1.0\r\n"} {
-		c, err := net.Dial("tcp", "127.0.0.1:18554")
-		if err != nil {
-			panic(err)
-		}
-		io.WriteString(c, pre)
-		t0 := time.Now()
-		c.SetReadDeadline(time.Now().Add(8 * time.Second))
-		_, err = bufio.NewReader(c).ReadByte()
-		fmt.Printf("prefix %q: read returned after %v: %v; ledger %+v\n", pre, time.Since(t0).Round(time.Millisecond), err, s.VerifLedger())
-		c.Close()
-	}
-	time.Sleep(500 * time.Millisecond)
-	fmt.Println("goroutines", runtime.NumGoroutine(), s.VerifLedger())
-
 	// a full raw conversation
 	c, _ := net.Dial("tcp", "127.0.0.1:18554")
 	br := bufio.NewReader(c)
+	sid := ""
 	send := func(s string) {
 		io.WriteString(c, s)
 		c.SetReadDeadline(time.Now().Add(3 * time.Second))
@@ -106,24 +92,21 @@ func main() {
 			}
 			fmt.Sscanf(l, "Content-Length: %d", &cl)
 			lines = append(lines, l)
+			if strings.HasPrefix(l, "Session: ") {
+				sid = strings.Split(l[9:], ";")[0]
+			}
 		}
 		io.CopyN(io.Discard, br, int64(cl))
 		fmt.Println("<<", strings.Join(lines, " | "))
 	}
-	send("OPTIONS rtsp://127.0.0.1:18554/s RTSP/1.0\r\nCSeq: 1\r\n\r\n")
-	send("DESCRIBE rtsp://127.0.0.1:18554/s RTSP/1.0\r\nCSeq: 2\r\n\r\n")
-	send("SETUP rtsp://127.0.0.1:18554/s/trackID=0 RTSP/1.0\r\nCSeq: 3\r\nTransport: RTP/AVP;unicast;client_port=35000-35001\r\n\r\n")
-	fmt.Println(s.VerifLedger())
-	fmt.Println(h.stream.VerifReaders())
-	send("PLAY rtsp://127.0.0.1:18554/s RTSP/1.0\r\nCSeq: 4\r\nSession: x\r\n\r\n")
-	time.Sleep(200 * time.Millisecond)
-	fmt.Println(s.VerifLedger())
-	fmt.Println(h.stream.VerifReaders())
+	sdp := "v=0\r\no=- 0 0 IN IP4 127.0.0.1\r\ns=x\r\nc=IN IP4 0.0.0.0\r\nt=0 0\r\nm=video 0 RTP/AVP 96\r\na=rtpmap:96 H264/90000\r\na=fmtp:96 packetization-mode=1\r\na=control:trackID=0\r\n"
+	send(fmt.Sprintf("ANNOUNCE rtsp://127.0.0.1:18554/pub RTSP/1.0\r\nCSeq: 1\r\nContent-Type: application/sdp\r\nContent-Length: %d\r\n\r\n%s", len(sdp), sdp))
+	send("SETUP rtsp://127.0.0.1:18554/pub/trackID=0 RTSP/1.0\r\nCSeq: 2\r\nTransport: RTP/AVP;unicast;client_port=" + os.Args[1] + ";mode=record\r\n\r\n")
+	send("RECORD rtsp://127.0.0.1:18554/pub RTSP/1.0\r\nCSeq: 3\r\nSession: " + sid + "\r\n\r\n")
 	c.Close()
-	for i := 0; i < 8; i++ {
+	for i := 0; i < 10; i++ {
 		time.Sleep(500 * time.Millisecond)
-		r, a, m := h.stream.VerifReaders()
-		fmt.Println(i, s.VerifLedger(), r, a, m, runtime.NumGoroutine())
+		fmt.Println(i, s.VerifLedger(), runtime.NumGoroutine())
 	}
 	s.Close()
 }
